@@ -44,6 +44,8 @@ func main() {
 		"library stage: every file is parsed through one reader kind/state of each group (plain shapes at offset 0; seekable readers positioned behind other text; " +
 			"os.Pipe; partly consumed bufio.Reader; readers with content beyond their end) and judged by the line model on the bytes from the reader's position to its end; " +
 			"age-keygen -y is driven with a standard input another process has already read from",
+		"CLI name stage: the key file's name varies (fmt verbs, trailing %, spaces, quotes, backslash, newline, tab, non-ASCII, invalid UTF-8, leading dash, 200 characters, " +
+			"such directories; relative, ./ and absolute); there the line number is searched outside quoted strings and stderr must carry no fmt error marker %! outside the echo of the name",
 		"comments are hexadecimal noise (plus age-keygen style '# public key:' lines in identity files)",
 	}
 	r.MinEvals, r.MinDistinct = 3000, 2000
